@@ -14,7 +14,7 @@ VERIF = Path(__file__).resolve().parents[2]
 LEAN = VERIF / "lean"
 REPO = Path(os.environ.get("GCMPY_REPO", "/repo"))
 WORK = VERIF / ".work"
-EVIDENCE = VERIF / "evidence"
+EVIDENCE = (VERIF / "evidence") if str(REPO) == "/repo" else (WORK / "evidence_alt")   # trial runs against a scratch copy never overwrite the evidence
 REPLAYS = VERIF / "replays"
 DRIVER = LEAN / ".lake" / "build" / "bin" / "driver"
 ALLOWED_AXIOMS = {"propext", "Classical.choice", "Quot.sound"}
